@@ -1,19 +1,21 @@
 (* C09 — Assignability implies containment; overlap detection is complete.
    ONLY the property theorems, each closed by `exact <lemma>` and followed by Print Assumptions.
    Models: Types.v (registry), Rel.v (check_type_relation, `current_cfg` = /repo after the fix:
-   commits 5207502 (F7) and 2246a47 (F12)), Narrow.v.  Specification: Sem.v (`inhab`).
+   commits 5207502 (F7), 2246a47 (F12), 2932723 (F29), 7ba69a0 (F25p)), Narrow.v (incl. f9e893e, F26).  Specification: Sem.v (`inhab`).
 
    What is PROVED (for every registry, unbounded):
      compat_sound_partial      is_compatible => containment, on the cycle-free fragment
                                (`cf_domain`: ids topologically ordered, no Cycle/Variable reachable,
-                               processes with both directions, partial types unnamed), for every
-                               model variant that retracts failed assumptions (fix F7)
+                               processes with both directions; named partial types only for
+                               variants with the F29 repair), for every model variant that
+                               retracts failed assumptions (fix F7)
      compat_refl               outright, every registry and id
      overlap_complete_partial  a `false` of types_overlap proves disjointness on the first-order
                                cycle-free fragment (ints, bins, refs, resources, tuples, unions)
      register_type/tuple_monotone, inhab_monotone   registry monotonicity
    What is REFUTED on the real code (witnesses, vm_compute; replayed by ./check):
-     F7, F12 (as found; repaired since), F23 (a, c), F25 (callable, partial), partial-name.
+     F7, F12, F25p, F29 (as found; repaired since, repaired answers pinned), F23 (a, c),
+     F25 (callable).
    What is NOT proved (kept here in full; judged on every run by the semantic oracle on the REAL
    functions' answers, exhaustive value enumeration to depth 3):
 
@@ -25,12 +27,12 @@
         is_compatible P a c = true        (not proved; checked on every generated triple)
      overlap_complete : forall P a b, closedb P a = true -> closedb P b = true ->
         (exists n v, inhab P n [] v a /\ inhab P n [] v b) -> types_overlap P a b = true
-        (false as stated: F25 for partial/callable/process; recursive first-order fragment unproved)
+        (false as stated: F25 for callable/process; recursive first-order fragment unproved)
      intersect_keeps : inhab P n [] v a -> inhab P n [] v b ->
         inhab P' n [] v (intersect_types P a b)          (P' = registry after the call)
      complement_keeps : inhab P n [] v o -> ~ inhab P n [] v nr ->
         inhab P' n [] v (compute_complement P o nr)
-        (both false on recursive unions: F24, F26; not proved on the cycle-free fragment either —
+        (both false on recursive unions: F24; not proved on the cycle-free fragment either —
          validated by the oracle only) *)
 From Quiver Require Import Base Types Rel Sem SemProofs RelProofs OverlapProofs TypesProofs Witness.
 From Coq Require Import Arith.
@@ -127,13 +129,27 @@ Qed.
 Print Assumptions C09_compat_refuted_F23.
 
 Theorem C09_overlap_refuted_F25 :
-  overlap_violation current_cfg reg_F25fn 3 4 (VFun 6) = true /\
-  overlap_violation current_cfg reg_F25partial 1 2 v_F25p = true.
-Proof. exact (conj F25_callable_current F25_partial_current). Qed.
+  overlap_violation current_cfg reg_F25fn 3 4 (VFun 6) = true.
+Proof. exact F25_callable_current. Qed.
 Print Assumptions C09_overlap_refuted_F25.
 
-Theorem C09_compat_refuted_partial_name :
-  compat_violation current_cfg reg_Pname 1 2 v_Pname = true /\
-  is_compatible_with partial_cfg 1000 reg_Pname 1 2 = Some false.
-Proof. exact (conj partial_name_current partial_name_proposed_repair). Qed.
-Print Assumptions C09_compat_refuted_partial_name.
+(* ---- refuted as found, repaired since: F25p (7ba69a0), F29 (2932723) ---- *)
+Theorem C09_overlap_refuted_F25p_as_found :
+  overlap_violation fixed_cfg reg_F25partial 1 2 v_F25p = true.
+Proof. exact F25p_as_found. Qed.
+Print Assumptions C09_overlap_refuted_F25p_as_found.
+
+Theorem C09_F25p_repaired :
+  types_overlap_with current_cfg 1000 reg_F25partial 1 2 = Some true /\
+  types_overlap_with current_cfg 1000 reg_F25partial 2 1 = Some true.
+Proof. exact F25p_repaired. Qed.
+Print Assumptions C09_F25p_repaired.
+
+Theorem C09_compat_refuted_F29_as_found :
+  compat_violation fixed_cfg reg_Pname 1 2 v_Pname = true.
+Proof. exact F29_as_found. Qed.
+Print Assumptions C09_compat_refuted_F29_as_found.
+
+Theorem C09_F29_repaired : is_compatible_with current_cfg 1000 reg_Pname 1 2 = Some false.
+Proof. exact F29_repaired. Qed.
+Print Assumptions C09_F29_repaired.
